@@ -575,4 +575,84 @@ example : (([(3, 2), (5, 1/2)] : List (Q × Q)).foldlM (fun s b => thrUpd s b.1 
 example : ∀ b ∈ ([(3, 2), (5, 1/2)] : List (Q × Q)), 0 ≤ b.1 ∧ 0 < b.2 := by decide +kernel
 example : thrMrg (3, 2) [(5, 4), (1, 1)] = (9, 4) := by decide +kernel
 
+/-! ## 8. PSNR (argument of `log10`) -/
+
+/-- **PSNR, given `data_range = r > 0`**: the argument of `10·log10` is `r² / MSE`. -/
+theorem psnr_arg_eq (xs ts : List Q) (r : Q) (hr : 0 < r) (hn : ts ≠ [])
+    (hs : (psnrUpdate xs ts).1 ≠ 0) :
+    psnrFn xs ts (some r) = .ok (.val (Spec.Agg.psnrRatio r xs ts)) := by
+  have a : ¬ r ≤ 0 := Rat.not_le.mpr hr
+  have hl : (ts.length : Q) ≠ 0 := natCast_ne_zero (by simpa using hn)
+  simp only [psnrFn, a, if_false]
+  simp only [psnrUpdate] at hs ⊢
+  rw [psnrArg_val _ _ _ hl hs]; rfl
+
+/-- **PSNR, `data_range = None`**: the range is `max(target) − min(target)`. -/
+theorem psnr_arg_auto_eq (xs ts : List Q) (hi lo : Q) (hhi : IsMax ts hi) (hlo : IsMin ts lo)
+    (hs : (psnrUpdate xs ts).1 ≠ 0) :
+    psnrFn xs ts none = .ok (.val (Spec.Agg.psnrRatio (hi - lo) xs ts)) := by
+  have hne : ts ≠ [] := by intro e; rw [e] at hhi; exact absurd hhi.1 (by simp)
+  obtain ⟨m, hm⟩ := (max_defined_iff qmax ts).mpr hne
+  obtain ⟨k, hk⟩ := (max_defined_iff qmin ts).mpr hne
+  have e1 : m = hi := isMax_unique (reduce_max ts m hm) hhi
+  have e2 : k = lo := isMin_unique (reduce_min ts k hk) hlo
+  have hl : (ts.length : Q) ≠ 0 := natCast_ne_zero (by simpa using hne)
+  simp only [psnrFn, hm, hk, e1, e2]
+  simp only [psnrUpdate] at hs ⊢
+  rw [psnrArg_val _ _ _ hl hs]; rfl
+
+/-- identical images: `MSE = 0`, the argument is `+inf` (PSNR `inf`) for a positive range. -/
+theorem psnr_identical (n r : Q) (hn : n ≠ 0) (hr : 0 < r) : psnrArg 0 n (.val r) = .pinf := by
+  have hp : 0 < r * r := Rat.mul_pos hr hr
+  have hne : r * r ≠ 0 := by grind
+  have h0 : (0 : Q) / n = 0 := by grind
+  simp [psnrArg, xmul, xdivX, xdiv, hn, h0, hp, hne]
+
+/-- non-positive `data_range` is rejected; an empty target with `data_range=None` raises in `torch.max`. -/
+theorem psnr_rejects (xs ts : List Q) (r : Q) (hr : r ≤ 0) :
+    psnrFn xs ts (some r) = .error .value ∧ psnrFn xs [] none = .error .runtime := by
+  simp [psnrFn, hr, reduceBy]
+
+example : (psnrFn [1, 2, 3, 4] [1, 2, 3, 6] none).toOption = some (.val 25) := by decide +kernel
+example : IsMax [1, 2, 3, 6] 6 ∧ IsMin [1, 2, 3, 6] 1 ∧ (psnrUpdate [1, 2, 3, 4] [1, 2, 3, 6]).1 ≠ 0 := by
+  refine ⟨max_eq _ _ (by decide +kernel), min_eq _ _ (by decide +kernel), by decide +kernel⟩
+
+/-! ## 12. Fréchet audio distance: moment bookkeeping -/
+
+/-- the partial sums `(n, Σe, ΣeᵀE)` are additive over batches / merges … -/
+theorem fad_partial_sums_additive (d : Nat) (A B : Mat) :
+    fadAdd (fadBatch d A) (fadBatch d B) = fadBatch d (A ++ B) := fadBatch_append d A B
+
+theorem fad_stream_eq (d : Nat) (bs : List Mat) :
+    bs.foldl (fun s b => fadAdd s (fadBatch d b)) (fadBatch d []) = fadBatch d bs.flatten := by
+  suffices ∀ P : Mat, bs.foldl (fun s b => fadAdd s (fadBatch d b)) (fadBatch d P) = fadBatch d (P ++ bs.flatten) by
+    simpa using this []
+  induction bs with
+  | nil => intro P; simp
+  | cons b bs ih => intro P; simp only [List.foldl_cons, fadBatch_append, ih, List.flatten_cons, List.append_assoc]
+
+/-- … and **`compute`'s moments are the definition**: for `n ≥ 2` embeddings, `Σe/n` is the sample
+    mean and `ΣeᵀE/(n−1) − μᵀμ·n/(n−1)` the unbiased sample covariance. -/
+theorem fad_moments_eq (d : Nat) (rows : Mat) (hn : 2 ≤ rows.length) :
+    fadMoments (fadBatch d rows) =
+      ((List.range d).map fun j => Spec.Agg.mean (col j rows),
+       (List.range d).map fun i => (List.range d).map fun j => Spec.Agg.cov (col i rows) (col j rows)) := by
+  have h0 : rows.length ≠ 0 := by omega
+  have hq : (rows.length : Q) ≠ 0 := natCast_ne_zero h0
+  have h1 : (rows.length : Q) - 1 ≠ 0 := by
+    have : (2 : Q) ≤ (rows.length : Q) := by exact_mod_cast hn
+    grind
+  simp only [fadMoments, fadBatch, List.map_map, zipWith_map_same, Prod.mk.injEq]
+  refine ⟨?_, ?_⟩
+  · apply List.map_congr_left; intro j _
+    simp [Spec.Agg.mean, col_length]
+  · apply List.map_congr_left; intro i _
+    apply List.map_congr_left; intro j _
+    simp only [Function.comp_apply, Spec.Agg.cov, scatter_raw (col i rows) (col j rows) (by simp [col_length]) (by simpa [col_length] using h0),
+      col_length]
+    grind
+
+example : fadMoments ([[[1, 2]], [[3, 5], [0, 1]]].foldl (fun s b => fadAdd s (fadBatch 2 b)) (fadBatch 2 []))
+    = ([4/3, 8/3], [[7/3, 19/6], [19/6, 13/3]]) := by decide +kernel
+
 end TE.C07
